@@ -519,6 +519,13 @@ func init() {
 		externalModels[ty+".WriteByte"] = grow("byte")
 		externalModels[ty+".WriteRune"] = grow("rune")
 		externalModels[ty+".Reset"] = grow("reset")
+		// Grow(n) panics for a negative n ("bytes.Buffer.Grow: negative count"); the contents stay as they are
+		externalModels[ty+".Grow"] = func(fr *Frame, callee *ssa.Function, args []Val, resT types.Type, st *State, reach string, pos token.Pos) Val {
+			c := fr.c
+			fr.oblige("safety", "nil dereference "+c.eng.srcText(pos, "call"), reach, not(eq(c.termOf(args[0]), "0")), pos)
+			fr.oblige("safety", "Grow with a negative count "+c.eng.srcText(pos, "call"), reach, app("<=", "0", c.termOf(args[1])), pos)
+			return fr.havocVal(resT, "grow")
+		}
 		for _, mn := range []string{"WriteString", "Write", "WriteByte", "WriteRune", "Reset"} {
 			externalEffects[ty+"."+mn] = func(e *Engine, sc *FnCtx, callee *ssa.Function, eff *Effects) {
 				if hn, hs, ok := bufField(sc, callee); ok {
